@@ -6,7 +6,7 @@ from harness import core
 from props import time_common as tc
 
 BASE = dict(MaxLen=3, MaxT=4, Lo=1, Small=set(), MaxLenS=2, MaxTS=3, Ds={0, 1, 2}, AbsLo=1, Terms={"C", "E", "U"}, AuxLen=0,
-            SpecKs={"N", "C", "E", "U"}, SpecTs={0, 1, 2}, Hz=7, DispOps=set(), DispLen=1)
+            SpecKs={"N", "C", "E", "U", "X"}, SpecTs={0, 1, 2}, Hz=7, DispOps=set(), DispLen=1)
 
 # quick: two TLC runs side by side; operators in Small use the smaller timeline bounds; for the operators in DispOps the
 # subscriber also disposes between two instants (timelines of at most DispLen elements)
@@ -20,8 +20,11 @@ THOROUGH = [(["delay", "delay_abs", "timestamp", "time_interval"], dict(MaxLen=4
             (["delay_with_mapper"], dict(MaxLen=3, MaxT=3, SpecTs={0, 2}, Hz=7)),
             (["delay_with_mapper_sub"], dict(MaxLen=2, MaxT=3, SpecTs={0, 2}, Hz=7)),
             (["delay", "delay_abs", "delay_subscription", "delay_subscription_abs", "delay_with_mapper", "delay_with_mapper_sub"],
-             dict(MaxLen=2, MaxT=3, Ds={0, 1, 2}, SpecTs={0, 2}, Hz=6, DispLen=2,
-                  DispOps={"delay", "delay_abs", "delay_subscription", "delay_subscription_abs", "delay_with_mapper", "delay_with_mapper_sub"}))]
+             dict(MaxLen=2, MaxT=2, Ds={0, 1, 2}, SpecTs={0, 2}, Hz=6, DispLen=2,
+                  DispOps={"delay", "delay_abs", "delay_subscription", "delay_subscription_abs", "delay_with_mapper", "delay_with_mapper_sub"})),
+            # a cold source that notifies at its very subscription instant
+            (["delay", "delay_abs", "timestamp", "time_interval", "delay_subscription", "delay_subscription_abs", "delay_with_mapper",
+              "delay_with_mapper_sub"], dict(Lo=0, MaxLen=2, MaxT=2, SpecTs={0, 1}, Hz=6))]
 
 # beyond the exhaustive bounds: sampled timelines (one resolution of the ties per sample - only tie-free samples are judged)
 SIM = (["delay", "delay_abs", "delay_subscription", "delay_subscription_abs", "timestamp", "time_interval"],
@@ -33,7 +36,7 @@ def run(tier):
     groups = tc.run_groups(ck, QUICK if tier == "quick" else THOROUGH, BASE, tier)
     ck.exhaustive = True
     if tier == "thorough":
-        nsim = tc.simulate_and_replay(ck, SIM[0], dict(BASE, **SIM[1]), 40000, tier)
+        nsim = tc.simulate_and_replay(ck, SIM[0], dict(BASE, **SIM[1]), 20000, tier)
         ck.note("simulated_tie_free_scenarios", nsim)
     ck.rule = ("every source timeline (element times 1..MaxT non-decreasing, 0..MaxLen elements, ending in completion, error or "
                "nothing) x every duration / absolute target / per-element delay-observable table, enumerated by TLC on "
